@@ -399,6 +399,8 @@ def explore(prog, case, stats=None, max_paths=50000, budget_s=600, max_viol=6, m
         dec = work.pop()
         ex = Exec(prog, M, dec, stats)
         ex.world = World()
+        ex.range_limit = case.get('range_limit', 64)
+        ex.max_steps = max(ex.max_steps, 400 * ex.range_limit)
         try:
             r = run_case(H, ex, case)
             res['paths'] += 1
@@ -801,7 +803,7 @@ def prop_case(H, ex, case):
     vals = []
     for i in range(n):
         v = {}
-        for fld, w in FIELDS[kind]:
+        for fld, w in (FIELDS[kind] if kind != 'String' else [('b%d' % j, 8) for j in range(max(opts['len']))]):
             v[fld] = z3.Bool('p%d_%s' % (i, fld)) if w == 'bool' else z3.BitVec('p%d_%s' % (i, fld), w)
         vals.append(v)
     if kind == 'Bool':
